@@ -262,7 +262,11 @@ def gen_chain_case(rng):
 
 def cookie_owner_ok(req_host, set_host, domain_attr):
     def bare(h):
-        h = h.rsplit(':', 1)[0] if not h.startswith('[') else h
+        # cookies are per host, not per port: strip ':port' (also after an IPv6 literal)
+        if h.startswith('['):
+            h = h[:h.index(']') + 1] if ']' in h else h
+        else:
+            h = h.rsplit(':', 1)[0] if ':' in h else h
         return h.lower()
     rh, sh = bare(req_host), bare(set_host)
     if rh == sh:
